@@ -49,7 +49,11 @@ Rng(e) == e.from..(e.to - 1)
 Prefix(e, p) == p.head # 0 /\ p.tail # 0 /\ e.from = p.tail /\ e.from < e.to /\ e.to <= p.head + 1
 Suffix(e, p) == p.head # 0 /\ p.tail # 0 /\ e.to = p.head + 1 /\ p.tail <= e.from /\ e.from < e.to
 Valid(e, p)  == Prefix(e, p) \/ Suffix(e, p)
-Unchanged(p, o) == o.head = p.head /\ o.tail = p.tail /\ o.hs = p.hs /\ o.R = p.R /\ o.RH = p.RH
+\* "no effect": nothing readable changes, Tail stays; Head may only complete a deferred advance over headers that
+\* were already readable (DeleteRange starts with a Sync)
+Unchanged(p, o) == /\ o.tail = p.tail /\ o.R = p.R /\ o.RH = p.RH
+                   /\ \/ (o.head = p.head /\ o.hs = p.hs)
+                      \/ (p.head # 0 /\ o.head > p.head /\ (p.head..o.head) \subseteq p.R)
 
 C08(e, p, o) ==
   LET rng == Rng(e) IN
